@@ -446,6 +446,43 @@ func ruleC13Order(cx *Ctx) {
 	}
 	cx.R.Check(taskFirst, rule, name, "task ≺ sweep", cx.P.Pos(maint.Pos()), "the caller's own task is replayed - on every path, by maintenance or a helper it hands the task to - before the wheel sweep")
 	cx.R.Check(d != nil && v != nil && instrDominates(d, v), rule, name, "replay ≺ evict", cx.P.Pos(maint.Pos()), "draining the write buffer precedes evictNodes (C04.setmax)")
+	// the sweep precedes size eviction: an expired entry is removed - and reported - as expired by the sweep before the
+	// policy can pick it as a size victim (the policy's callback has no clock sample: it would report Overflow)
+	var ordered func(fn *ssa.Function, a, b func(ssa.Instruction) bool, depth int) bool
+	ordered = func(fn *ssa.Function, a, b func(ssa.Instruction) bool, depth int) bool {
+		if fn == nil || depth > 3 {
+			return false
+		}
+		stepIn := func(what func(ssa.Instruction) bool) ssa.Instruction {
+			var out ssa.Instruction
+			allInstrs(fn, func(in ssa.Instruction) {
+				if out != nil {
+					return
+				}
+				if what(in) {
+					out = in
+					return
+				}
+				if c := calleeOf(in); c != nil && c.Pkg != nil && c.Pkg.Pkg.Path() == modPath && origin(c) != origin(rt) {
+					if ok, _ := reachesInstr(c, what, map[*ssa.Function]bool{}, nil); ok {
+						out = in
+					}
+				}
+			})
+			return out
+		}
+		x, y := stepIn(a), stepIn(b)
+		if x == nil || y == nil {
+			return false
+		}
+		if x == y {
+			return ordered(origin(calleeOf(x)), a, b, depth+1)
+		}
+		return instrDominates(x, y)
+	}
+	isSweep := func(in ssa.Instruction) bool { return isCallTo(in, de) }
+	isEvict := func(in ssa.Instruction) bool { return isCallTo(in, evN) }
+	cx.R.Check(ordered(maint, isSweep, isEvict, 0), rule, name, "sweep ≺ evict", cx.P.Pos(maint.Pos()), "the wheel sweep precedes evictNodes: what has expired is reported as expired, not as a size eviction")
 	// the sweep runs against a fresh clock sample
 	okNow := false
 	for _, f := range cx.P.FuncsOfPkg("") {
